@@ -123,7 +123,7 @@ def genstep_obs():
 
 
 def c02(tier, seed):
-    return table_obs(tier) + bittrick_obs() + gen_obs(tier, seed) + genstep_obs()
+    return table_obs(tier) + bittrick_obs() + gen_obs(tier, seed) + genstep_obs() + main_obs()[:1]
 
 
 # ---------------------------------------------------------------- split parity (C17)
@@ -468,6 +468,26 @@ STATE_M = dict(region='state_m', file='cmdline/state.c', scope="} else if (c == 
 ILK_REGIONS = [SCAN_EMPTY, SYNC_PSIZE, STATE_Z, STATE_Y, STATE_M]
 
 
+MAIN_CONFIG = dict(region='main_config', file='cmdline/snapraid.c', begin='state_init(&state);', include_begin=True, end='if (operation == OPERATION_DIFF) {', max_lines=40, expect_loops=0,
+                   proto='static void region_main_config(struct snapraid_state *state_p, struct snapraid_option *opt_p, const char *conf, const char *command, int *lock_p)',
+                   prologue='\tstruct snapraid_state state = *state_p;\n\tstruct snapraid_option opt = *opt_p;\n\ttommy_list filterlist_disk;\n\tint lock = *lock_p;\n\ttommy_list_init(&filterlist_disk);',
+                   epilogue='\t*state_p = state;\n\t*lock_p = lock;')
+MAIN_SYNC = dict(region='main_sync', file='cmdline/snapraid.c', begin='state.clear_past_hash = 1;', include_begin=True, end='} else if (operation == OPERATION_DRY) {', end_first_after=True,
+                 max_lines=70, expect_loops=0,
+                 proto='static void region_main_sync(struct snapraid_state *state_p, struct snapraid_option *opt_p, const char *run, block_off_t blockstart, block_off_t blockcount)',
+                 prologue='\tstruct snapraid_state state = *state_p;\n\tstruct snapraid_option opt = *opt_p;\n\tint ret;', epilogue='\t*state_p = state;')
+
+
+def main_obs():
+    M = 'harness/h_main.c'
+    return [Ob('main.config.region', M, 'h_main_config', inject=[MAIN_CONFIG, MAIN_SYNC], unwind=4, small_path=True, timeout=600, mem=6, cost=3,
+               functions=['main: region "state_init(&state)" .. before the command dispatch (cmdline/snapraid.c, extracted mechanically)'],
+               note='configured mode Cauchy / Vandermonde, lock file configured or not, --test-skip-lock, lock_lock succeeding / failing with any errno; every callee a recording stub'),
+            Ob('main.sync_branch.region', M, 'h_main_sync', inject=[MAIN_CONFIG, MAIN_SYNC], unwind=4, small_path=True, timeout=600, mem=6, cost=3,
+               functions=['main: the OPERATION_SYNC branch (cmdline/snapraid.c, extracted mechanically)'],
+               note='every outcome of scan / sync / test command, need_write set by scan or by sync, forced content write, kill-after-sync; every callee a recording stub')]
+
+
 def c14(tier, seed):
     I = 'harness/h_interlock.c'
     P = 'harness/h_psize.c'
@@ -489,7 +509,7 @@ def c14(tier, seed):
         Ob('parity.allocated_size', P, 'h_allocated_size', unwind=8, small_path=True, timeout=900, mem=6, cost=8, kind='bounded', bound='1..3 disks of at most 5 positions, every block state at every position',
            functions=['parity_allocated_size (cmdline/parity.c)', 'block_has_file (cmdline/elem.h)'], note='fs_size / fs_par2block_find by stub over a symbolic block table'),
     ]
-    return obs
+    return obs + main_obs()
 
 
 def c06(tier, seed):
@@ -704,7 +724,7 @@ def c08(tier, seed):
 def c16(tier, seed):
     """format stability = every constant / encoding is pinned to a definition that is not in the repo"""
     c17 = [o for o in PROPS['C17']['obligations'](tier, seed) if o.name in ('parity.split_find.contract', 'parity.split_find.lemma')]
-    return table_obs(tier) + crc_obs(tier) + stream_obs(['h_sgetb32', 'h_sgetb64', 'h_sgetble32', 'h_sgetbs', 'h_rt32', 'h_rt64', 'h_rtle32', 'h_rtbs']) + staterec_obs(tier) + elem_obs(tier) + c17 + hash_obs(tier)
+    return table_obs(tier) + crc_obs(tier) + stream_obs(['h_sgetb32', 'h_sgetb64', 'h_sgetble32', 'h_sgetbs', 'h_rt32', 'h_rt64', 'h_rtle32', 'h_rtbs']) + staterec_obs(tier) + elem_obs(tier) + c17 + hash_obs(tier) + main_obs()[:1]
 
 
 def c04(tier, seed):
@@ -735,10 +755,10 @@ PROPS['C06'].update(
     assumptions=['bounded: 2 disk slots in quick (3 thorough), block size 8', 'that the bytes hashed are the bytes on disk, the writer threads, parity_write I/O, autosave ordering and histories are not addressed', 'the extent operations are checked against the extent the finder returns (tree lookups, inserts and removals by recording contracts); the global invariants of the two trees (no overlap, every block mapped, monotone positions) are ASSUMED by the search units (they are what fs_check verifies at run time) and fs_check itself is NOT under an obligation', 'search side: the four comparators for all extents / arguments (proof); fs_is_empty, fs_par2extent_get_unlock / fs_par2file_find / fs_par2block_find and fs_size through the REAL tommy_tree_search_compare on search trees of at most 7 extents (bounded)'],
     not_covered=['fs_check, the AVL insert / remove / rebalance of tommy_tree, fs_file2par_find', 'parity_allocated_size / parity_used_size', 'io.c worker threads', 'state_write ordering vs parity_sync'])
 PROPS['C14'].update(
-    explanation='Only the DECISION of five of the seven interlocks, each on the real code (mechanically extracted regions; exit() routed to a checking stub): (1) end of the scan: sync stops with a failing status iff on some disk every previously known file is now missing or rewritten (no unchanged, moved or restored file, and at least one removed or changed) and --force-empty was not given; diff only reports; (2) head of state_sync: sync stops iff the start position is beyond the array, a parity file cannot be opened, or some parity file of ANY level holds fewer whole blocks than parity_used_size() and neither --force-full nor --force-realloc was given - this region ends before the first parity_chsize / state_write / parity write of state_sync; parity_used_size is one past the last synced (BLK) block over all disks, parity_allocated_size one past the last file block; (3) content file records: a block size or hash size different from the configuration (or invalid) is refused, without configuration it is adopted; a recorded disk not found by name nor by UUID is refused, found by UUID is a rename that is saved.',
+    explanation='Only the DECISION of six of the seven interlocks (the lock: main() stops with a failing status when a configured, not skipped lock cannot be taken, before anything is read; the sync branch of main reads the content, scans - where the scan interlocks stop it - and only then calls state_sync and state_write), each on the real code (mechanically extracted regions; exit() routed to a checking stub): (1) end of the scan: sync stops with a failing status iff on some disk every previously known file is now missing or rewritten (no unchanged, moved or restored file, and at least one removed or changed) and --force-empty was not given; diff only reports; (2) head of state_sync: sync stops iff the start position is beyond the array, a parity file cannot be opened, or some parity file of ANY level holds fewer whole blocks than parity_used_size() and neither --force-full nor --force-realloc was given - this region ends before the first parity_chsize / state_write / parity write of state_sync; parity_used_size is one past the last synced (BLK) block over all disks, parity_allocated_size one past the last file block; (3) content file records: a block size or hash size different from the configuration (or invalid) is refused, without configuration it is adopted; a recorded disk not found by name nor by UUID is refused, found by UUID is a rename that is saved.',
     trusted_base=['region extraction of state_diffscan / state_sync / state_read_content (5 regions)', 'parity_create / parity_size / parity_used_size / lev_name / sgetb32 / find_disk_by_name / find_disk_by_uuid by stub', 'the meaning of the scan counters (count_equal, count_move, count_restore, count_change, count_remove) as documented in struct snapraid_scan'],
-    assumptions=['"without altering any content or parity file" is a whole-program ordering / frame statement over the file system and is NOT decided (only: the parity-size region precedes every resize / write inside state_sync; parity_create may still create a missing, empty parity file)', 'the zero-size interlock (scan_file) and the lock file (flock in snapraid.c) are NOT under an obligation', 'how scan_file increments the counters is NOT under an obligation', 'bounded: 1..3 disks; block size 256 in the parity-size region; parity files below 2^32 blocks; -B start + count below 2^32'],
-    not_covered=['scan_file / scan_dir (counters, zero-size check)', 'lock_lock / lock_unlock (cmdline/support.c, snapraid.c)', 'main(): order of state_read / state_scan / state_sync', 'that a refusal leaves every file byte-identical'])
+    assumptions=['"without altering any content or parity file" is a whole-program ordering / frame statement over the file system and is NOT decided (only: the parity-size region precedes every resize / write inside state_sync; parity_create may still create a missing, empty parity file)', 'the zero-size interlock (scan_file) is NOT under an obligation; of the lock only the decision in main() is (a lock that cannot be taken stops the command before any state is read; lock_lock itself - open + flock - is the OS)', 'how scan_file increments the counters is NOT under an obligation', 'bounded: 1..3 disks; block size 256 in the parity-size region; parity files below 2^32 blocks; -B start + count below 2^32'],
+    not_covered=['scan_file / scan_dir (counters, zero-size check)', 'lock_lock / lock_unlock (cmdline/util.c)', 'that a refusal leaves every file byte-identical'])
 MANIFEST_TEXT['C14'] = dict(level_text='Narrow: the refuse / proceed decision of the empty-disk, short-parity, block-size, hash-size and missing-disk interlocks is decided for all inputs on the extracted regions; that nothing was modified before the refusal, the zero-size interlock and the lock are not - level other.',
                             design_ref='DESIGN.md section 4', level_note='regions by mechanical extraction; callees by stub; frame over the file system not decided', technique='CBMC drivers on mechanically extracted regions of real cmdline/scan.c, sync.c, state.c; bounded unit on real cmdline/parity.c')
 PROPS['C19'] = dict(level='other', obligations=c19)
@@ -748,7 +768,7 @@ PROPS['C19'].update(
     assumptions=['copy-detection eligibility in scan.c (same name/size/time-stamp), file_copy, the pre-hash pass state_hash_process, state_import_fetch / state_search_fetch of check/fix are NOT under an obligation'],
     not_covered=['scan.c copy detection', 'file_copy', 'state_hash_process', 'import.c / search.c fetch functions'])
 PROPS['C16'].update(
-    explanation='Format stability is decided as "every constant and encoding equals a definition that is NOT in the repository": parity coefficients and every lookup table (table-free GF(2^8) spec, documented Cauchy / power matrix, all indices); CRC-32C tables == reflected 0x82F63B78 and the checksum function; the variable-length integer / little-endian / string codecs (all values); the nanosecond field encoding; the block layout rule of a file (block sizes 2^10..2^24); the split-parity address map. Any self-consistent change of one of them (which the suite cannot see, since it creates its arrays with the binary under test) fails a named obligation.',
+    explanation='Format stability is decided as "every constant and encoding equals a definition that is NOT in the repository": parity coefficients and every lookup table (table-free GF(2^8) spec, documented Cauchy / power matrix, all indices); CRC-32C tables == reflected 0x82F63B78 and the checksum function; the variable-length integer / little-endian / string codecs (all values); the nanosecond field encoding; the block layout rule of a file (block sizes 2^10..2^24); the split-parity address map; and main() switches the engine to the mode the configuration selects (z-parity = Vandermonde third row) after reading it. Any self-consistent change of one of them (which the suite cannot see, since it creates its arrays with the binary under test) fails a named obligation.',
     trusted_base=['spec/gf_spec.h, the bitwise CRC and varint specifications in the drivers'],
     assumptions=['MurmurHash3_x86_128 is pinned to an independently organised transcription of the published algorithm for all contents and seeds at 15 lengths (0..33) in the THOROUGH tier only (about 20 minutes per length: an equivalence of two multiplier-heavy programs); in the quick tier, and for SpookyHash V2 / MetroHash in both tiers, the block hash functions are NOT pinned', 'record letters and header bytes of the content file are not pinned'],
     not_covered=['cmdline/murmur3.c, spooky2.c, metro.c', 'content header / record tags', 'reference arrays of earlier versions (those are tests, not this technique)'])
